@@ -38,6 +38,14 @@ MUTANTS: list[tuple[str, str, str, str, str]] = [
 	('C07', 'quotation-without-existence-check', 'rogw/tranp/view/error_render.py', '		if not os.path.exists(filepath):\n			return []\n', ''),
 	('C07', 'ancestor-uses-list-index', 'rogw/tranp/syntax/node/query.py', 'index = elems.index(tag) if tag in elems else -1', 'index = elems.index(tag)'),
 	('C07', 'preprocess-lets-builtin-exceptions-through', 'rogw/tranp/providers/module.py', "			except Exception as e:\n				raise Errors.Fatal(module, 'Unhandled error', e) from e\n", '			except Exception as e:\n				raise\n'),
+	('C10', 'resolver-caches-by-symbol', 'rogw/tranp/syntax/node/resolver.py', '		if full_path in self.__insts:\n			return self.__insts[full_path]\n', '		if symbol in self.__insts and symbol == \'var\':\n			return self.__insts[symbol]\n		if symbol == \'var\':\n			full_path_key = symbol\n		if full_path in self.__insts:\n			return self.__insts[full_path]\n'),
+	('C10', 'memo-key-collision-children-expand', 'rogw/tranp/syntax/node/query.py', "return self.__memo.get(f'children.{via}', factory)", "return self.__memo.get(f'expand.{via}', factory)"),
+	('C10', 'index-form-only-for-three-or-more', 'rogw/tranp/syntax/ast/finder.py', 'indivisual = len(tag_of_indexs[entry_tag]) == 1', 'indivisual = len(tag_of_indexs[entry_tag]) <= 2'),
+	('C10', 'pluck-ignores-index-zero', 'rogw/tranp/syntax/ast/finder.py', 'if index >= 0 and index < len(children):', 'if index > 0 and index < len(children):'),
+	('C10', 'entry-cache-drops-child-map', 'rogw/tranp/syntax/ast/cache.py', '			self.__children[in_path][last] = True\n', '			if len(remain) < 6:\n				self.__children[in_path][last] = True\n'),
+	('C10', 'ancestor-off-by-one', 'rogw/tranp/syntax/node/query.py', 'slices = len(elems) - index', 'slices = max(1, len(elems) - index - 1)'),
+	('C10', 'parent-memo-ignores-path', 'rogw/tranp/syntax/node/query.py', "return self.__memo.get(f'parent.{via}', factory)", "return self.__memo.get(f'parent.{via.count(\".\")}.{via.split(\".\")[-1]}', factory)"),
+	('C10', 'entry-ids-by-sorted-path', 'rogw/tranp/syntax/ast/cache.py', '		return self.__indexs[full_path] if self.exists(full_path) else -1', '		return sorted(self.__indexs).index(full_path) if self.exists(full_path) else -1'),
 	('C14', 'deserialize-attrs-lexicographic-order', 'rogw/tranp/semantics/reflection/serializer.py', "paths = sorted(data_attrs.keys(), key=lambda key: key.count('.'))", 'paths = sorted(data_attrs.keys())'),
 	('C14', 'deep-attrs-attached-to-first', 'rogw/tranp/semantics/reflection/serializer.py', '			attr = attrs[index_keys.pop(0)]\n', '			attr = attrs[0]\n			index_keys.pop(0)\n'),
 	('C14', 'serialize-omits-via', 'rogw/tranp/semantics/reflection/serializer.py', "'via': symbol.via.types.fullyname,", "'via': symbol.types.fullyname,"),
